@@ -1,5 +1,5 @@
 """C09 - call/N, once/1, findall/3, = and \\= agree with their standard definitions."""
-from lib import semcheck, progs
+from lib import semcheck, progs, progs_shapes
 from lib.semcheck import impl, model_expr, compare, oracle, describe, shrink, IMPORTS
 
 ID = 'C09'
@@ -14,6 +14,8 @@ RULE = ('random programs whose bodies use call/1..N (extra arguments), once/1, f
         'solution, and some query has an answer.')
 TRUSTED_BASE = []
 
+N_FIRST = {'quick': 40, 'thorough': 1000}
+
 def gen(rng, tier):
     n = 240 if tier == 'quick' else 5000
     cases = []
@@ -21,6 +23,9 @@ def gen(rng, tier):
         o = progs.Opts(open_leaves=0.5 if rng.random() < 0.6 else 0.0, control=rng.random() < 0.5, cut=rng.random() < 0.2, opaque_cut=False, builtins=True)
         p = progs.gen_program(rng, o)
         cases.append({'clauses': p['clauses'], 'queries': p['queries']})
+    # clause-local variables that occur first in an = goal inside a scope whose bindings must be undone (lib/progs_shapes.py)
+    for _ in range(N_FIRST[tier]):
+        cases.append(progs_shapes.gen_first_binding_program(rng))
     return cases
 
 def builtin_corpus():
